@@ -305,9 +305,10 @@ def gen_lines(spec: dict, res: dict):
                         fl.append(int(np.mod((i + np.ceil(J ** c) - 1), K)))
                 frames.append(fl)
         return line("gen_circus", hdr, shape, specg, [max(M, 0)], *frames)
-    if name == "VariableDensityPoisson" and not racs and res.get("ok") and res.get("frames"):
+    if name == "VariableDensityPoisson" and not racs and res.get("ok") and res.get("frames") and _kernel_budget["left"] > 0:
         ln = poisson_gen_line(spec, res, cf)
         if ln is not None:
+            _kernel_budget["left"] -= 1
             return ln
     # interior given as data
     if fam in ("line", "ktline"):
@@ -340,6 +341,9 @@ def gen_lines(spec: dict, res: dict):
     return line("gen", hdr, shape, specg, interior)
 
 
+_kernel_budget = {"left": 0}     # generator-level lines that run the kernel model (set per run in `correspondence`)
+
+
 def poisson_gen_line(spec: dict, res: dict, cf):
     """`gen_poisson` line: the model runs the `_poisson` kernel of every frame on the recorded `rand()` stream (the
     arguments of the last bisection step, as the real call recorded them), ORs the ACS disc, crops, reshapes"""
@@ -347,7 +351,7 @@ def poisson_gen_line(spec: dict, res: dict, cf):
     rows, cols = shape[-3], shape[-2]
     groups = []
     for fr in res["frames"]:
-        if "nx" not in fr or fr["nx"] * fr["ny"] > 1600:
+        if "nx" not in fr or fr["nx"] * fr["ny"] * len(res["frames"]) > 900:
             return None
         rx = np.array([P.undy(fr["rx"][i], fr["rx"][i + 1]) for i in range(0, len(fr["rx"]), 2)]).reshape(fr["nx"], fr["ny"])
         ry = np.array([P.undy(fr["ry"][i], fr["ry"][i + 1]) for i in range(0, len(fr["ry"]), 2)]).reshape(fr["nx"], fr["ny"])
@@ -713,6 +717,7 @@ def poisson_kernel_cases(ctx: Ctx):
 
 
 def correspondence(ctx: Ctx):
+    _kernel_budget["left"] = ctx.budget(5, 120)
     yield from kernel_cases(ctx)
     yield from poisson_kernel_cases(ctx)
     yield from generator_cases(ctx, ctx.budget(9, 240), acs=False)
@@ -763,6 +768,180 @@ def check_geometry(spec: dict, res: dict):
             if any(r != fr[0] for r in fr):
                 yield f"rows-differ-{name}-{tag}", f"{name} ({mode}) frame {f}: rows of a line mask differ"
                 break
+
+
+# --------------------------------------------------------------------------------------------------
+# argument forms, call histories on one instance, the real call sites
+_sites_worker: G.Worker | None = None
+
+
+def sites_worker() -> G.Worker:
+    global _sites_worker
+    if _sites_worker is None:
+        _sites_worker = G.Worker("props.c04_sites", "run")
+        atexit.register(_sites_worker.close)
+    return _sites_worker
+
+
+def _same(a: dict, b: dict) -> bool:
+    if not a.get("ok") or not b.get("ok"):
+        return a.get("ok") == b.get("ok") and a.get("err") == b.get("err")
+    return (a["shape"], a["dtype"], a["sha"]) == (b["shape"], b["dtype"], b["sha"])
+
+
+def small_spec(rng, name: str, one_frame: bool = False):
+    mode = rng.choice(G.modes_of(name))
+    spec = G.sample_case(rng, name, mode=mode, small=True, options=0.3)
+    if spec is None:
+        return None
+    if name in ("VariableDensityPoisson", "KtRadial"):
+        spec.get("extra", {}).pop("max_attempts", None)
+    if one_frame and mode != "static" and len(spec["shape"]) >= 4:
+        spec["shape"][-4] = 1                      # a single frame / slice: the `.squeeze()` paths
+    return spec
+
+
+def history_calls(rng, spec: dict) -> list[dict]:
+    """a call sequence for one object in which consecutive calls share some but not all of
+    (seed, rank, rows, cols, frames, return_acs)"""
+    shape, seed = list(spec["shape"]), spec["seed"]
+    other_seed = rng.randrange(2 ** 31) if isinstance(seed, list) else [rng.randrange(256) for _ in range(3)]
+
+    def frames(sh, d):
+        t = list(sh)
+        t[-4] = max(1, t[-4] + d) if max(1, t[-4] + d) != t[-4] else t[-4] + 1
+        return t
+
+    swapped = list(shape)
+    swapped[-3], swapped[-2] = shape[-2], shape[-3]
+    longer = [2] + shape if len(shape) == 4 else shape[1:]
+    seq = [
+        (shape, seed, False, "first call"),
+        (frames(shape, +2), seed, False, "same seed, rank, rows, cols - two more frames / slices"),
+        (shape, seed, True, "same shape and seed - return_acs toggled"),
+        (frames(shape, -1), seed, True, "same seed, rank, rows, cols - one frame / slice fewer, ACS"),
+        (swapped, seed, False, "same seed, rank, frames - rows and cols swapped"),
+        (longer, seed, False, "same seed, rows, cols, frames - other rank"),
+        (shape, other_seed, False, "same shape - other seed"),
+        (frames(shape, +1), other_seed, rng.random() < 0.5, "other seed, one more frame"),
+        (shape, seed, False, "exact repeat of the first call"),
+        (frames(shape, +2), seed, False, "exact repeat of the second call"),
+    ]
+    return [{"shape": sh, "seed": sd, "return_acs": ra, "why": why} for sh, sd, ra, why in seq]
+
+
+def forms_sites_oracle(ctx: Ctx, seen: set, deep: bool):
+    """every accepted argument form gives the same mask; a reused instance gives the mask of a fresh one whatever
+    shapes it served before; the real callers (CreateSamplingMask, apply_mask, config-driven construction) obtain the
+    mask of the documented geometry"""
+    rng = ctx.rng
+    reps = ctx.budget(1, 6) * (2 if deep else 1)
+    for name in G.GENERATORS:
+        for k in range(reps):
+            spec = small_spec(rng, name, one_frame=(k % 2 == 1) or rng.random() < 0.3)
+            if spec is None:
+                continue
+            spec["return_acs"] = rng.random() < 0.3
+            # ---- forms
+            r = sites_worker().run(dict(spec, kind="forms"), 90.0)
+            if r.get("hang") or not r.get("ok"):
+                ctx.count(("forms", name, k), False, bucket="oracle/forms/" + ("hang" if r.get("hang") else "harness-error"))
+                if r.get("hang"):
+                    key = f"hang-{name}"
+                    if key not in seen:
+                        seen.add(key)
+                        yield Violation(key, f"{name}: a call in one of the argument forms did not return",
+                                        {"op": "forms", "spec": spec, "observed": "hang"})
+                continue
+            base = r["forms"]["tuple/pos"]
+            ctx.count(("forms", json.dumps(spec, sort_keys=True)), bool(base.get("ok")),
+                      bucket=f"oracle/forms/{name}/" + ("returned" if base.get("ok") else "raised-" + str(base.get("err"))))
+            if base.get("ok") and base["shape"] != expected_shape(spec["mode"], spec["shape"]):
+                key = f"shape-{name}-" + ("acs" if spec["return_acs"] else "mask")
+                if key not in seen:
+                    seen.add(key)
+                    yield Violation(key, f"{name} ({spec['mode']}) returns shape {base['shape']} for {spec['shape']}",
+                                    {"op": "forms", "spec": spec, "form": "tuple/pos", "observed": base})
+            for form, d in r["forms"].items():
+                if form == "circus-unknown-scheme":
+                    key = f"unknown-scheme-accepted-{name}"
+                    if key not in seen:
+                        seen.add(key)
+                        yield Violation(key, "CIRCUSMaskFunc(subsampling_scheme='circus-zigzag') does not raise the documented "
+                                        f"NotImplementedError: {d}", {"op": "forms", "spec": spec, "form": form, "observed": d})
+                    continue
+                if not _same(d, base):
+                    key = f"argument-form-{name}-{form.split('/')[0]}"
+                    if key not in seen:
+                        seen.add(key)
+                        yield Violation(key, f"{name}: called with {form} gives {d.get('shape') or d.get('err')}, "
+                                        f"with a tuple {base.get('shape') or base.get('err')} (same seed)",
+                                        {"op": "forms", "spec": spec, "form": form, "observed": d, "expected": base})
+        # ---- histories on one instance (every mode): consecutive calls share some but not all of
+        #      (seed, rank, rows, cols, frames, return_acs); each answer must be the answer of a fresh instance
+        for mode in G.modes_of(name):
+            spec = None
+            for _ in range(4):
+                spec = G.sample_case(rng, name, mode=mode, small=True, rank=rng.choice([4, 5]))
+                if spec is not None and spec["shape"][-3] != spec["shape"][-2]:
+                    break
+            if spec is None:
+                continue
+            calls = history_calls(rng, spec)
+            r = sites_worker().run(dict(spec, kind="history", calls=calls), 180.0)
+            ctx.count(("history", json.dumps([spec, calls], sort_keys=True)), bool(r.get("ok")),
+                      bucket=f"oracle/history/{name}/{mode}" + ("" if r.get("ok") else "/hang" if r.get("hang") else "/error"))
+            if not r.get("ok"):
+                continue
+            for k, (c, pair) in enumerate(zip(calls, r["calls"])):
+                exp = expected_shape(mode, c["shape"])
+                bad_hist = not _same(pair["fresh"], pair["reused"])
+                bad_shape = pair["reused"].get("ok") and pair["reused"]["shape"] != exp
+                if bad_hist or bad_shape:
+                    key = f"history-dependent-{name}" if bad_hist else f"shape-{name}-" + ("acs" if c["return_acs"] else "mask")
+                    if key not in seen:
+                        seen.add(key)
+                        yield Violation(key, f"{name} ({mode}): call {k} of a history on one object, shape {c['shape']} seed {c['seed']} "
+                                        f"return_acs={c['return_acs']} ({c['why']}), returns {pair['reused'].get('shape') or pair['reused'].get('err')}"
+                                        f" (count {pair['reused'].get('count')}); a fresh object returns "
+                                        f"{pair['fresh'].get('shape') or pair['fresh'].get('err')} (count {pair['fresh'].get('count')}); "
+                                        f"documented geometry {exp}",
+                                        {"op": "history", "spec": spec, "calls": calls[:k + 1], "observed": pair["reused"],
+                                         "expected": pair["fresh"]})
+                    break
+        # ---- call sites
+        spec = small_spec(rng, name, one_frame=rng.random() < 0.3)
+        if spec is not None:
+            r = sites_worker().run(dict(spec, kind="site"), 120.0)
+            ctx.count(("site", json.dumps(spec, sort_keys=True)), bool(r.get("ok")), bucket=f"oracle/call-sites/{name}")
+            if r.get("ok"):
+                st = r["sites"]
+                d0 = st["direct"]
+                for site in ("create/sampling_mask", "create-partial-shape", "apply_mask/mask", "config-build"):
+                    if site in st and not _same(st[site], d0):
+                        key = f"call-site-{name}-{site.split('/')[0]}"
+                        if key not in seen:
+                            seen.add(key)
+                            yield Violation(key, f"{name}: through {site} the mask is {st[site].get('shape') or st[site].get('err')}, "
+                                            f"called directly {d0.get('shape') or d0.get('err')}",
+                                            {"op": "site", "spec": spec, "site": site, "observed": st[site], "expected": d0})
+                if "class-no-mode" in st and not _same(st["config-build-no-mode"], st["class-no-mode"]):
+                    key = f"call-site-{name}-config-build-no-mode"
+                    if key not in seen:
+                        seen.add(key)
+                        a, b = st["config-build-no-mode"], st["class-no-mode"]
+                        yield Violation(key, f"{name}: build_masking_function('{name}', …) without a mode gives "
+                                        f"{a.get('shape') or (a.get('err'), a.get('msg'))}, {name}MaskFunc(…) without a mode "
+                                        f"{b.get('shape') or b.get('err')} for shape {spec['shape']}",
+                                        {"op": "site", "spec": spec, "site": "config-build-no-mode", "observed": a, "expected": b})
+                acs = st.get("create/acs_mask")
+                if d0.get("ok") and acs is not None and (not acs.get("ok") or acs["shape"] != d0["shape"] or acs["dtype"] != "torch.bool"
+                                                          or st.get("create/broadcasts") is False or st.get("apply_mask/masked-ok") is False):
+                    key = f"call-site-{name}-acs"
+                    if key not in seen:
+                        seen.add(key)
+                        yield Violation(key, f"{name}: CreateSamplingMask(return_acs=True) gives acs_mask {acs}, mask {d0}",
+                                        {"op": "site", "spec": spec, "site": "create/acs_mask", "observed": acs, "expected": d0})
 
 
 def oracle(ctx: Ctx, deep: bool = False):
@@ -877,6 +1056,7 @@ def oracle(ctx: Ctx, deep: bool = False):
                         if key not in seen:
                             seen.add(key)
                             yield Violation(key, what, {"op": "generator", "spec": s})
+    yield from forms_sites_oracle(ctx, seen, deep)
     yield from hang_violations(seen)
     if _worker is not None:
         ctx.notes.append(f"watchdog worker: spawned {_worker.spawned}x, hangs {_worker.hangs}")
@@ -894,6 +1074,30 @@ def replay(rep: dict) -> bool:
     if rep.get("op") == "bisect-threshold":
         res = worker().run({"op": "bisect_script", "n": 8, "acc": 4, "script": [], "threshold": rep["threshold"]}, TIMEOUT)
         return bool(res.get("hang") or res.get("ok") or res.get("err") != "ValueError")
+    if rep.get("op") == "forms":
+        r = sites_worker().run(dict(rep["spec"], kind="forms"), 90.0)
+        if not r.get("ok"):
+            return True
+        d, base = r["forms"].get(rep["form"], {}), r["forms"]["tuple/pos"]
+        return (not _same(d, base)) or (base.get("ok") and base["shape"] != expected_shape(rep["spec"]["mode"], rep["spec"]["shape"]))
+    if rep.get("op") == "history":
+        r = sites_worker().run(dict(rep["spec"], kind="history", calls=rep["calls"]), 180.0)
+        if not r.get("ok"):
+            return True
+        last, c = r["calls"][-1], rep["calls"][-1]
+        return (not _same(last["fresh"], last["reused"])) or bool(
+            last["reused"].get("ok") and last["reused"]["shape"] != expected_shape(rep["spec"]["mode"], c["shape"]))
+    if rep.get("op") == "site":
+        r = sites_worker().run(dict(rep["spec"], kind="site"), 120.0)
+        if not r.get("ok"):
+            return True
+        st = r["sites"]
+        if rep["site"] == "create/acs_mask":
+            a, d0 = st.get("create/acs_mask", {}), st["direct"]
+            return bool(d0.get("ok") and (not a.get("ok") or a["shape"] != d0["shape"] or a["dtype"] != "torch.bool"))
+        if rep["site"] == "config-build-no-mode":
+            return not _same(st.get("config-build-no-mode", {}), st.get("class-no-mode", {}))
+        return not _same(st.get(rep["site"], {}), st["direct"])
     if rep.get("op") == "generator":
         s = rep["spec"]
         res = worker().run(s, TIMEOUT)
